@@ -632,16 +632,22 @@ def ctree_cases(rng, tier):
         nd = rand_tree(rng, rng.choice([1, 2, 2, 3]), tier, p=2, coherent=0.92, dtype=CD)
         if isinstance(nd, ProdNode):
             nodes.append(nd)
+    for _ in range(20 if not thorough else 200):       # mixed exponents: norm / dist of complex product spaces
+        nd = rand_tree(rng, rng.choice([1, 2]), tier, dtype=CD)
+        if isinstance(nd, ProdNode):
+            nodes.append(nd)
     for node in nodes:
         for _ in range(1 if not thorough else 2):
             x, xr, xi = node.rand_c(rng)
             y, yr, yi = node.rand_c(rng)
-            out, v = impl_call(lambda: x.inner(y))
-            im = v.imag if isinstance(v, complex) else 0.0
-            term = ('{| t_q := %s; t_s := %s; t_xr := %s; t_xi := %s; t_yr := %s; t_yi := %s; t_out := %s; '
-                    't_out_im := %s |}' % (qt, node.coq, xr, xi, yr, yi, out, C.q(im)))
-            cs.add(term, {'space': node.desc, 'op': 'inner', 'impl': out, 'im': im},
-                   (C.digest(node.desc), C.digest([xr, xi, yr, yi])))
+            for op, opq, f in (('inner', 'OInner', lambda: x.inner(y)), ('norm', 'ONorm', lambda: x.norm()),
+                               ('dist', 'ODist', lambda: x.dist(y))):
+                out, v = impl_call(f)
+                im = v.imag if isinstance(v, complex) else 0.0
+                term = ('{| t_q := %s; t_s := %s; t_xr := %s; t_xi := %s; t_yr := %s; t_yi := %s; t_op := %s; '
+                        't_out := %s; t_out_im := %s |}' % (qt, node.coq, xr, xi, yr, yi, opq, out, C.q(im)))
+                cs.add(term, {'space': node.desc, 'op': op, 'impl': out, 'im': im, 'src': node.src},
+                       (C.digest(node.desc), op, C.digest([xr, xi, yr, yi])))
     return cs
 
 
@@ -1196,7 +1202,8 @@ LEVEL_TEXT = ('Proof (Coq, carrier R, all lengths / shapes / tree depths): for c
               'exponents {1,2,inf,3,4} x dtypes x C/F data x sizes 0..60000 x boundary flags x nested trees.')
 LEVEL_NOTE = ('Validated, not proved: NumPy/BLAS kernels and float rounding (compared to rtol 1e-10, float32 1e-5); '
               'apply_on_boundary modelled as an outer product of per-axis vectors; non-integer exponents (1.5, 2.5) and '
-              'norm/dist of complex product spaces only probed (their inner product is modelled and proved); custom inner/norm/dist are pass-through (delegation probed); the '
+              'norm/dist of complex product spaces are in the correspondence (entry-wise modulus, then the real paths) but '
+              'have no theorem of their own (their inner product is modelled and proved); custom inner/norm/dist are pass-through (delegation probed); the '
               'Q-instance p-th root (exact on perfect powers, else 2^-64 floor approximations) stands for the real root. '
               'Eight recorded findings are modelled through measured variant switches (quirks) or excluded inputs and '
               'reproduced by probes.  Axioms: classical reals + functional extensionality as printed.')
